@@ -1,6 +1,7 @@
 import TsRsVerif.Model.Export
 import TsRsVerif.Lemmas.AbsLemmas
 import TsRsVerif.Lemmas.SpellingLemmas
+import TsRsVerif.Lemmas.HistoryWorld
 /-!
 # C06 — export results depend only on what was exported, not how or in what order
 
@@ -9,8 +10,8 @@ point* is used (`export` ≡ `export_into` the default directory — this is exa
 snapshot violated and the `fix:` commit repaired), nor on *how the directory is spelled* (any two
 spellings that `path::absolute` normalises alike drive the whole depth-first export identically),
 because the registry key is always the normalised path and `absolute` is idempotent.
-Order independence of the file *contents* is C05's theorem (`C05_order_independent`); that the
-textual merge realises it on the bytes is checked per history (see C05, partial).
+Order independence of the file *contents*, on the bytes and for whole histories, is `C06_history_order_independent`
+(a corollary of the refinement theorem `C05_history_canonical`).
 -/
 namespace TsRs
 open Text Export Path
@@ -57,6 +58,17 @@ example : let cwd := "/home/u/proj".toList
     absolute cwd "../proj/bindings/A.ts".toList = .ok "/home/u/proj/bindings/A.ts".toList := by decide
 
 /-! ## the defect of the pinned snapshot, as a counter-example: the key `export()` used -/
+/-- **the result depends only on WHAT was exported**: two histories that export the same set of (well-formed, distinctly
+named) texts into one path of a fresh process, in any two orders, both succeed at every step and end in the SAME file
+system (byte for byte) and the same set of registered names. -/
+theorem C06_history_order_independent (w : World) (path : Str) (h₁ h₂ : List GenT) (hperm : h₁.Perm h₂) (hne : h₁ ≠ [])
+    (hok : ∀ x ∈ h₁, GenOK x) (hnd : (h₁.map (·.name)).Nodup) (hndI : (h₁.map (·.ident)).Nodup)
+    (hp : w.poisoned = false) (hreg : regGet w.reg (regKey path) = none)
+    (hc : ∃ text, (w.fs.fileCreate path text).isSome) :
+    ∃ w₁ w₂, runAll path w h₁ = (w₁, true) ∧ runAll path w h₂ = (w₂, true) ∧ w₁.fs = w₂.fs ∧
+      ∀ n, (∃ names, regGet w₁.reg (regKey path) = some names ∧ n ∈ names) ↔ (∃ names, regGet w₂.reg (regKey path) = some names ∧ n ∈ names) :=
+  history_order_independent w path h₁ h₂ hperm hne hok hnd hndI hp hreg hc
+
 /-- before the fix `export()` keyed the registry by the un-normalised path: as `PathBuf`s the two
 spellings of one file are different keys -/
 theorem C06_old_cex_keys_differ :
